@@ -20,24 +20,30 @@ META = {
         text="Proof: for every tree, outcome oracle and stream the denotational flow model offers each enabled child exactly the results of the events its parent passed (passed_mem, "
              "passed_count: multiplicities add up, nothing lost/duplicated/invented), every root the whole stream (roots_offered), and prunes disabled subtrees entirely (disabled_pruned, "
              "silentN_all). The model's shape is pinned to the source by regenerated skeleton equalities (skeleton_*). The per-edge conservation under EVERY interleaving of workers and async "
-             "completions is an invariant of the node component model (Properties/ExecLedger). Real executor runs are compared with the flow model and judged by the trace monitor.",
+             "completions is an invariant of the node component model (Properties/ExecLedger), and the PRODUCT of the components over their shared channels (Model/ExecNet: one component per "
+             "node of an arbitrary tree, any global schedule) satisfies every component invariant at every node plus channel agreement (reachable_ginv); at global quiescence every node of a "
+             "tree without discarding nodes received exactly the denotational prediction (tree_flow_any_global_schedule), and with any discard settings receipts + counted drops = offers on "
+             "every edge (tree_edge_any_global_schedule). Real executor runs are compared with the flow model and judged by the trace monitor.",
         note="Trusted: Lean kernel, model transcription, Go channel/WaitGroup/Once semantics, harness nodes, extractor. The Go scheduler is sampled, not enumerated, on the real code.",
     ),
     "C02": dict(
         text="Proof: the handler is offered exactly one report per failed event carrying that event, none for passed/filtered events (reports_exact via injectivity of the report wrapper, "
              "report_only_for_failures), reports go to the node's own handler only (handler_gets_reports), a node without handler only counts (no_handler_only_counts); handler edge "
-             "conservation under every interleaving in the component model. Real runs: handlers (sync and async) check pointer identity of the original event and of the returned error.",
+             "conservation under every interleaving in the component model and, in the product model of the whole tree, for every global schedule (tree_handler_any_global_schedule). Real runs: handlers (sync and async) check pointer identity of the original event and of the returned error.",
         note="Trusted as C01. Found and repaired: F3 (async error handlers panicked).",
     ),
     "C03": dict(
         text="Proof: close-cascade invariants of the node component model under every interleaving of its workers, async completions and downstream consumers: WaitGroup count = live workers, "
              "a single Once holder, Shutdown only after every processing call returned, children and handler closed only after Shutdown returned, each exactly once, never a send on a closed channel "
-             "(Properties/ExecCascade). Source shape pinned by skeleton equalities for runNode, startWorkers, Execute, waitTimeout, superviseSource, Shutdown. Real runs are judged by sequence stamps.",
-        note="Trusted as C01, plus H-async. Liveness (Execute does return) is observed on real runs (watchdog), not proved.",
+             "(Properties/ExecCascade); in the product model of the whole tree (Model/ExecNet) under every global schedule: a child's or handler's Shutdown begins only after its parent's Shutdown has "
+             "returned (tree_cascade_any_global_schedule), no closed channel is ever sent on or closed twice anywhere (tree_no_panic_any_global_schedule), nothing is left in any channel at quiescence "
+             "(tree_drained_any_global_schedule). Source shape pinned by skeleton equalities for runNode, startWorkers, Execute, waitTimeout, superviseSource, Shutdown. Real runs are judged by sequence stamps.",
+        note="Trusted as C01, plus H-async. Liveness (Execute does return; a global schedule reaching quiescence exists) is observed on real runs (watchdog), not proved.",
     ),
     "C04": dict(
         text="Proof: ledger invariants of the component model under every interleaving: offered = enqueued + dropped (counting form), nothing is ever dropped at a non-discarding target, every drop "
-             "happens at a full buffer and is counted, a send to a discarding target is always enabled (never blocks) (Properties/ExecLedger). Real runs: per-edge multiset equations relative to what "
+             "happens at a full buffer and is counted, a send to a discarding target is always enabled (never blocks) (Properties/ExecLedger); on every edge of the product model of the whole tree, for every global schedule: drops only at discarding children, each "
+             "counted, receipts + drops = offers (tree_discard_any_global_schedule). Real runs: per-edge multiset equations relative to what "
              "the parent received, discarded_events_total per node id, gated scenarios for progress.",
         note="Trusted as C01. Found and repaired: F4 (handlers ignored discard_on_full_buffer and blocked the parent).",
     ),
@@ -50,7 +56,7 @@ META = {
     ),
     "C16": dict(
         text="Proof: processed + filtered + failed = received for every oracle and input, a fanout result counts once, counters depend only on the node's own input (counters_partition, "
-             "fanout_counts_once, counters_local); counter invariant under every interleaving in the component model (Properties/ExecLedger). Real runs: prometheus counters per run-unique node id "
+             "fanout_counts_once, counters_local); counter invariant under every interleaving in the component model (Properties/ExecLedger) and at every node of the product model of the whole tree (tree_counters_any_global_schedule). Real runs: prometheus counters per run-unique node id "
              "are read back and compared with the model's prediction and with the oracle applied to what the node actually received.",
         note="Trusted as C01, plus unique node ids (C13).",
     ),
